@@ -86,7 +86,7 @@ func VH_C11_cycle(k1, k2, second int) {
 		expect = append(expect, twin.sn.take()...)
 	}
 	// wake-up
-	vAssume(x.feedSN(snPkts1.NewPingreq([]byte("c"))) == nil)
+	vAssume(x.feedSN(snPkts1.NewPingreq(vWakeID())) == nil)
 	got := x.sn.take()
 	vReach("C11.woke_up")
 	vAssert(len(got) == len(expect)+1, "C11.buffered_delivered_once_then_pingresp")
@@ -124,10 +124,22 @@ func VH_C11_timed(kind int) {
 	vLabel("slept_past_retry", vB2U(w >= int64(time.Second)))
 	vSleepUntil(vNow() + w)
 	vAssert(len(x.sn.out) == 0, "C11.nothing_sent_while_asleep")
-	vAssume(x.feedSN(snPkts1.NewPingreq([]byte("c"))) == nil)
+	vAssume(x.feedSN(snPkts1.NewPingreq(vWakeID())) == nil)
 	got := x.sn.take()
 	vReach("C11.woke_up_later")
 	vAssert(vCountSN(got, vtPUBLISH) == 1, "C11.timed_delivered_once")
 	last := vParseSN(got[len(got)-1])
 	vAssert(vAnd(last.OK, last.Typ == vtPINGRESP), "C11.followed_by_pingresp")
+}
+
+// vWakeID: the client ID field of a wake-up PINGREQ. The property speaks of a
+// client that "wakes with PINGREQ": the gateway knows the client from the
+// connection, so a PINGREQ without the (optional) client ID field wakes it too.
+// Symbolic choice between a present and an empty field.
+func vWakeID() []byte {
+	if vChoose(2) == 1 {
+		vReach("C11.wake_without_client_id")
+		return nil
+	}
+	return []byte("c")
 }
